@@ -36,6 +36,7 @@ func TestRaceFreeRunning(t *testing.T) {
 				_ = w.eng.Stop(context.Background(), c)
 			}
 			w.gcCancel()
+			w.killControllers()
 		}
 	}
 }
